@@ -31,7 +31,8 @@ def sim_cases():
         g.adv, g.adv, g.adv, g.die, g.dier, g.dier, g.dier, g.die_any, g.wexit,
         # the shutdown path must report losses too (close, then a running
         # worker dies with nothing queued)
-        g.close, g.dier0, g.lastgasp,
+        g.close, g.dier0, g.lastgasp, g.lastgasp, g.slow,
+        g.straggle.map(lambda o: o[:3] + [False]),
     ]
     return g.history(cfg, ops, max_ops=70, min_ops=15)
 
